@@ -101,7 +101,8 @@ class C06(Property):
             o = dialects.load(config, bytes.fromhex(case["bytes_hex"]),
                               lexer_fn)
         else:
-            o = dialects.load(config, case["text"], lexer_fn)
+            o = dialects.load(config, case["text"], lexer_fn,
+                              custom=case.get("custom", False))
         if out is not None:
             out.evals += 1
             out.inc("outcome." + (o.kind if o.documented() else o.brief()))
@@ -167,7 +168,11 @@ class C06(Property):
                              "value-loss", "garbage") if rng.random() < 0.6] \
             or ["trunc"]
 
+        custom = (not use_new) and rng.random() < 0.1
+
         def do(case, nontrivial=True):
+            if custom:
+                case = dict(case, custom=True)
             if use_new and "plan" not in case:
                 case = dict(case, config="new")
             vs = self.check(out, case)
